@@ -271,7 +271,7 @@ class TypedNode(Node):
             if isinstance(before, (int, TypedNode)) and before is not False:
                 topnodes = topnodes[::-1]
             for n in topnodes:
-                self.add_child(n, before=before, deep=deep)
+                self.add_child(n, kind=n.kind, before=before, deep=deep)
             return
 
         if isinstance(before, Node) and before._parent is not self:
@@ -453,6 +453,22 @@ class TypedNode(Node):
     # def remove_children(self, kind: Union[str, ANY_KIND]):
     #     """Remove all children of this node, making it a leaf node."""
     #     raise NotImplementedError
+
+    def _add_from(
+        self, other: Node, *, predicate: Optional[PredicateCallbackType] = None
+    ) -> None:
+        """Append copies of all source descendants to self (keeping the kind)."""
+        if predicate:
+            return self._add_filtered(other, predicate)
+
+        assert not self._children
+        for child in other.children:
+            new_child = self.add_child(
+                child.data, kind=child.kind, data_id=child._data_id
+            )
+            if child.children:
+                new_child._add_from(child, predicate=None)
+        return
 
     def copy(self, *, add_self=True, predicate=None) -> TypedTree:
         """Return a new :class:`~nutree.typed_tree.TypedTree` instance from this branch.
